@@ -220,6 +220,7 @@ impl Monitor for C11 {
         let mut rng = Rng::for_trial(cfg.seed, "C11", idx);
         let vi = (idx % 9) as usize;
         let n = nl[((idx / 9) % nl.len() as u64) as usize];
+        let n = super::jitter_n(cfg, n, 1, 64, &mut rng);
         let class = CLASSES[((idx / (9 * nl.len() as u64)) % CLASSES.len() as u64) as usize];
         let rep = idx / (9 * nl.len() * CLASSES.len()) as u64;
         // every second repetition of small N runs at the exact scalar on a short stream
